@@ -272,6 +272,87 @@ theorem deviation_eq_model (ri ei : List (Rat × Rat)) (t : Bool) :
 theorem deviation_default (ri ei : List (Rat × Rat)) :
     Mir.Gen.segment.deviation ri ei = Boundary.deviation ri ei false := deviation_eq_model ri ei _
 
+/-! ### `tempo.validate`, `tempo.detection` -/
+
+/-- **`tempo.validate` as translated = the hand model** (`Tempo.validate`; `validate_tempi` is an extern) -/
+theorem tempo_validate_eq_model (r : List Rat) (w : Rat) (e : List Rat) :
+    Mir.Gen.tempo.validate r w e = Tempo.validate r w e := by
+  unfold Mir.Gen.tempo.validate Tempo.validate PyEG.validate_tempi
+  cases Tempo.validateTempi r true with
+  | error x => rfl
+  | ok u =>
+    cases Tempo.validateTempi e false with
+    | error x => rfl
+    | ok u' =>
+      simp only [ok_bind, Bool.or_eq_true, decide_eq_true_eq, gt_iff_lt]
+      by_cases h : w < 0 ∨ 1 < w
+      · rw [if_pos h]; simp only [h, if_true]
+      · rw [if_neg h]; simp only [h, if_false]; rfl
+
+theorem validateTempi_len {t : List Rat} {b : Bool} {u : Unit} (h : Tempo.validateTempi t b = .ok u) :
+    ∃ a c, t = [a, c] := by
+  unfold Tempo.validateTempi at h
+  by_cases hl : t.length ≠ 2
+  · rw [if_pos hl] at h; cases h
+  · have : t.length = 2 := not_not.1 hl
+    match t, this with
+    | [a, c], _ => exact ⟨a, c, rfl⟩
+
+theorem tempo_validate_shapes {r e : List Rat} {w : Rat} {u : Unit} (h : Tempo.validate r w e = .ok u) :
+    ∃ r0 r1 e0 e1, r = [r0, r1] ∧ e = [e0, e1] := by
+  unfold Tempo.validate at h
+  cases h1 : Tempo.validateTempi r true with
+  | error x => rw [h1] at h; cases h
+  | ok u1 =>
+    cases h2 : Tempo.validateTempi e false with
+    | error x => rw [h1, h2] at h; cases h
+    | ok u2 =>
+      obtain ⟨r0, r1, hr⟩ := validateTempi_len h1
+      obtain ⟨e0, e1, he⟩ := validateTempi_len h2
+      exact ⟨r0, r1, e0, e1, hr, he⟩
+
+/-- the relative error of one reference tempo against the two estimates, as the translated NumPy expression -/
+theorem npMin_two (r e0 e1 : Rat) (hr : r ≠ 0) :
+    PyEG.npMin (PyEG.divVecNp (PyEG.absV (PyEG.rsubScalar r [e0, e1])) r) = .ok (.val (Tempo.relErr r e0 e1)) := by
+  simp [PyEG.npMin, PyEG.divVecNp, PyEG.absV, PyEG.rsubScalar, Segment.npDiv, hr, PyEG.numMin2, Tempo.relErr]
+
+/-- one iteration of the translated loop stores the hand model's `hit` -/
+theorem tempo_step (e0 e1 tol r : Rat) (i : Nat) (rest : List Rat) (hits : List Bool) (hi : i < hits.length) :
+    Mir.Gen.tempo.detection_loop1 [e0, e1] tol i (r :: rest) hits =
+      Mir.Gen.tempo.detection_loop1 [e0, e1] tol (i + 1) rest
+        (if 0 < r then hits.set i (Tempo.hit r e0 e1 tol) else hits) := by
+  rw [Mir.Gen.tempo.detection_loop1]
+  simp only [decide_eq_true_eq, gt_iff_lt]
+  by_cases h : 0 < r
+  · rw [if_pos h, if_pos h, npMin_two r e0 e1 (ne_of_gt h)]
+    simp only [ok_bind, PyEG.setItemB, if_pos hi, PyEG.numLe, Tempo.hit, if_pos h]
+  · rw [if_neg h, if_neg h]
+
+/-- **`tempo.detection` as translated = the hand model** (`Tempo.detection`), for ALL inputs: validation (the two
+    `validate_tempi` calls, the weight range), the `ValueError` of a tolerance outside [0, 1], the per-reference-tempo hit
+    `min |ref − est| / ref <= tol` (skipped for a zero reference tempo), the weighted P-score and the two flags -/
+theorem tempo_detection_eq_model (r : List Rat) (w : Rat) (e : List Rat) (tol : Rat) :
+    Mir.Gen.tempo.detection r w e tol = Tempo.detection r w e tol := by
+  unfold Mir.Gen.tempo.detection Tempo.detection
+  rw [tempo_validate_eq_model]
+  cases hv : Tempo.validate r w e with
+  | error x => rfl
+  | ok u =>
+    obtain ⟨r0, r1, e0, e1, rfl, rfl⟩ := tempo_validate_shapes hv
+    simp only [ok_bind, Bool.or_eq_true, decide_eq_true_eq, gt_iff_lt]
+    by_cases ht : tol < 0 ∨ 1 < tol
+    · rw [if_pos ht]; simp only [ht, if_true]
+    · rw [if_neg ht]
+      simp only [ht, if_false]
+      rw [tempo_step e0 e1 tol r0 0 [r1] [false, false] (by simp), tempo_step e0 e1 tol r1 1 []  _ (by split <;> simp)]
+      rw [Mir.Gen.tempo.detection_loop1]
+      by_cases h0 : 0 < r0 <;> by_cases h1 : 0 < r1 <;>
+        simp [h0, h1, Tempo.hit, PyMP.listGet, PyEG.maxBools, PyEG.minBools, PyEG.b2r, Tempo.b2r, ok_bind] <;>
+        first | rfl | (simp only [pure, Except.pure])
+
+theorem tempo_detection_default (r : List Rat) (w : Rat) (e : List Rat) :
+    Mir.Gen.tempo.detection r w e = Tempo.detection r w e (2 / 25) := tempo_detection_eq_model r w e _
+
 /-! ### the C05 / C04 / C07 headline statements on the translated definitions -/
 
 /-- **C05 (`fast_hit_windows_is_the_tolerance_predicate`) on the code as translated**: the translated
